@@ -845,7 +845,6 @@ func (m *Memory) FindLatest(
 		now *am.TimeIndex, db []*MemoryRecord,
 	) []*MemoryRecord {
 		mTimeIdxs := m.Index(s.MTimeStates)
-		var older *MemoryRecord
 		var ret []*MemoryRecord
 
 	records:
@@ -854,10 +853,6 @@ func (m *Memory) FindLatest(
 				return nil
 			}
 			r := db[i]
-			older = nil
-			if i > 0 {
-				older = db[i-1]
-			}
 
 			// states conditions
 
@@ -873,8 +868,8 @@ func (m *Memory) FindLatest(
 				if !am.IsActiveTick(r.Time.MTimeTracked[idx]) {
 					continue records
 				}
-				// if has previously been active
-				if older != nil && am.IsActiveTick(older.Time.MTimeTracked[idx]) {
+				// not flipped by this very transition
+				if r.Time.MTimeTrackedDiff[idx]%2 == 0 {
 					continue records
 				}
 			}
@@ -890,8 +885,8 @@ func (m *Memory) FindLatest(
 				if am.IsActiveTick(r.Time.MTimeTracked[idx]) {
 					continue records
 				}
-				// if has previously been inactive
-				if older != nil && !am.IsActiveTick(older.Time.MTimeTracked[idx]) {
+				// not flipped by this very transition
+				if r.Time.MTimeTrackedDiff[idx]%2 == 0 {
 					continue records
 				}
 			}
